@@ -1324,20 +1324,19 @@ template<bool ROWS> static void q_remove_family(int mode, bool nullq)
 }
 extern "C" void h_c07q_remove_rows() { Q_DISPATCH(q_remove_family<true>) }
 extern "C" void h_c07q_remove_cols() { Q_DISPATCH(q_remove_family<false>) }
-// clearLPRational: documented "clears the LP" in every mode
+// clearLPRational: clears the rational LP (and, in automatic sync mode, the real LP); in real-only mode it is a no-op like
+// every other rational modifier (the pinned tree dereferenced the null rational LP there: repaired by a fix: commit in /repo)
 static void q_clear(int mode, bool nullq)
 {
    Q_PROLOGUE
    bool hb = vp_nondet_bool();
    sp->_hasBasis = hb;
    sp->clearLPRational();
-   E.nr = 0; E.nc = 0;
-   vp_assert(lu_cleared(sp), 13);
+   if(expQ) { E.nr = 0; E.nc = 0; vp_assert(lu_cleared(sp), 13); }
    if(expR) vp_assert(!sp->_hasBasis, 12); else vp_assert(sp->_hasBasis == hb, 12);
-   // (clearLPRational has no early return in real-only mode: the rational side is cleared and the solution invalidated in all modes)
    if(expR) check_real(sp, F_clear, hadSol, scaled, false); else vp_assert(R_.n == 0, 1);
-   check_sync(sp, true, F_clear, t0);
-   check_invalidated(sp);
+   check_sync(sp, expQ, F_clear, t0);
+   if(expQ) check_invalidated(sp); else check_untouched(sp);
    vp_cover(1);
 }
 extern "C" void h_c07q_clear()
